@@ -8,9 +8,11 @@ import (
 	"go/token"
 	"go/types"
 	"os"
+	"runtime"
 	"sort"
 	"strings"
 	"sync"
+	"sync/atomic"
 	"time"
 
 	"golang.org/x/tools/go/ssa"
@@ -54,11 +56,12 @@ type Engine struct {
 	// engine error (the alternative is silently wrong semantics).
 	uninit map[*ssa.Global]string
 	covMu    sync.Mutex
+	tokens   chan struct{} // one per CPU: held while a path executes
 	Cov      map[string]int64
 }
 
 func NewEngine(prog *ssa.Program, cfg Config) (*Engine, error) {
-	e := &Engine{Prog: prog, cfg: cfg, dispatch: map[*ssa.Function]*dispatchEntry{}, byName: map[string]*ssa.Function{}, Cov: map[string]int64{}}
+	e := &Engine{Prog: prog, cfg: cfg, dispatch: map[*ssa.Function]*dispatchEntry{}, byName: map[string]*ssa.Function{}, Cov: map[string]int64{}, tokens: make(chan struct{}, runtime.NumCPU())}
 	e.sizes = types.SizesFor("gc", "amd64")
 	all := ssautil.AllFunctions(prog)
 	for fn := range all {
@@ -365,51 +368,71 @@ func (e *Engine) RunJob(job Job, workers int) (*JobResult, error) {
 	x.sampleEvery = 997
 	start := time.Now()
 	var wg sync.WaitGroup
-	errs := make(chan error, workers)
+	errs := make(chan error, 2*workers)
 	var statMu sync.Mutex
+	var logTaken int32
 	for w := 0; w < workers; w++ {
 		wg.Add(1)
 		go func(w int) {
 			defer wg.Done()
-			i, err := e.getWorker()
-			if err != nil {
+			// The interpreter and the solver process are acquired when this worker gets its first
+			// item (small jobs do not pay for sixteen of each), and a path runs only while holding
+			// one of the engine's CPU tokens, so that several jobs can be explored at once without
+			// oversubscribing the machine.
+			var i *interpreter
+			var sol *solver
+			fail := func(err error) {
 				errs <- err
 				x.mu.Lock()
 				x.stop = true
 				x.cond.Broadcast()
 				x.mu.Unlock()
-				return
-			}
-			defer e.putWorker(i)
-			sol, err := newSolver()
-			if err != nil {
-				errs <- err
-				return
-			}
-			if e.cfg.SolverLogDir != "" && w == 0 {
-				// one worker's session is kept (capped) for the second-solver cross-check
-				f, _ := os.Create(fmt.Sprintf("%s/solver-%s-%d.smt2", e.cfg.SolverLogDir, sanitize(job.Name), w))
-				if f != nil {
-					sol.log = &cappedWriter{w: f, max: 4 << 20}
-					defer f.Close()
-				}
 			}
 			defer func() {
-				sol.close()
-				statMu.Lock()
-				s := &x.res.Solver
-				s.Queries += sol.stats.Queries
-				s.Sat += sol.stats.Sat
-				s.Unsat += sol.stats.Unsat
-				s.Unknown += sol.stats.Unknown
-				s.Time += sol.stats.Time
-				s.Asserted += sol.stats.Asserted
-				statMu.Unlock()
+				if i != nil {
+					e.putWorker(i)
+				}
+				if sol != nil {
+					sol.close()
+					statMu.Lock()
+					s := &x.res.Solver
+					s.Queries += sol.stats.Queries
+					s.Sat += sol.stats.Sat
+					s.Unsat += sol.stats.Unsat
+					s.Unknown += sol.stats.Unknown
+					s.Time += sol.stats.Time
+					s.Asserted += sol.stats.Asserted
+					statMu.Unlock()
+				}
 			}()
 			for {
 				item, ok := x.get()
 				if !ok {
 					return
+				}
+				e.tokens <- struct{}{}
+				if i == nil {
+					var err error
+					if i, err = e.getWorker(); err != nil {
+						<-e.tokens
+						i = nil
+						fail(err)
+						return
+					}
+					if sol, err = newSolver(); err != nil {
+						<-e.tokens
+						sol = nil
+						fail(err)
+						return
+					}
+					if e.cfg.SolverLogDir != "" && atomic.CompareAndSwapInt32(&logTaken, 0, 1) {
+						// one worker's session is kept (capped) for the second-solver cross-check
+						f, _ := os.Create(fmt.Sprintf("%s/solver-%s-%d.smt2", e.cfg.SolverLogDir, sanitize(job.Name), 0))
+						if f != nil {
+							sol.log = &cappedWriter{w: f, max: 4 << 20}
+							defer f.Close()
+						}
+					}
 				}
 				rec := i.runPath(sol, item, job.Opts, job.Params, func() {
 					i.reinit()
@@ -421,6 +444,7 @@ func (e *Engine) RunJob(job Job, workers int) (*JobResult, error) {
 					sol.close()
 					ns, err := newSolver()
 					if err != nil {
+						<-e.tokens
 						errs <- err
 						x.put(rec, nil)
 						return
@@ -429,6 +453,7 @@ func (e *Engine) RunJob(job Job, workers int) (*JobResult, error) {
 					ns.log = sol.log
 					sol = ns
 				}
+				<-e.tokens
 				for k := range rec.Violations {
 					rec.Violations[k].Job = job.Name
 					rec.Violations[k].Params = job.Params
